@@ -40,7 +40,7 @@ PLATFORMS = {
     "instagram": {
         "hosts": ["www.instagram.com", "instagram.com", "m.instagram.com"],
         "segs": ["p", "reel", "reels", "videos", "tv", "explore", "accounts", "stories", "user.name", "User_1", "BxKRx5CHn5i",
-                 "bad$code", "", "tagged"],
+                 "bad$code", "", "tagged", "Explore", "Reels"],
         "queries": ["", "?hl=fr", "?igshid=1"],
         "frags": ["", "#f"],
         "opts": [{}],
